@@ -51,11 +51,33 @@ def run(rep, pdb, tier):
         if helper is not None:
             hctx = Ctx.for_fn(pdb, helper)
             ht = helper["body"].get("expr")
-            hr = hctx.term(ht) if ht is not None else None
-            hb = hctx.binds.get(hr[1]) if hr is not None and hr[0] == "var" else None
-            hi = hctx.term(hb.init) if hb is not None and hb.init is not None else None
-            if hi is not None and hi[0] == "call" and str(hi[1]).endswith("Vector<T>::zeros") and not [a for a in hctx.assigns.get(hr[1], []) if a.get("k") == "Assign" and strip(a["l"]).get("k") == "Local"]:
-                hl = hi[2]
+            outs = ([ht] if ht is not None else []) + [r_["e"] for r_ in walk(helper["body"]) if r_.get("k") == "Ret" and r_.get("e") is not None]
+
+            def _len_of(node):
+                """length of the vector an exit of the helper hands back: a local allocated zeros(k) and never re-bound,
+                Vector::new(k, v), or Vector::create(vec![e1, .., ek])"""
+                t_ = hctx.term(node)
+                if t_[0] == "var":
+                    hb = hctx.binds.get(t_[1])
+                    hi = hctx.term(hb.init) if hb is not None and hb.init is not None else None
+                    if hi is not None and not [a for a in hctx.assigns.get(t_[1], []) if a.get("k") == "Assign" and strip(a["l"]).get("k") == "Local"]:
+                        t_ = hi
+                    else:
+                        return None
+                if t_[0] == "call" and str(t_[1]).endswith("Vector<T>::zeros"):
+                    return t_[2]
+                if t_[0] == "call" and str(t_[1]).endswith("Vector<T>::new") and len(t_) == 4:
+                    return t_[2]
+                if t_[0] == "call" and str(t_[1]).endswith("Vector<T>::create"):
+                    arrs = [x for x in walk(node if strip(node).get("k") != "Local" else (hctx.binds[t_and_var[1]].init if False else node)) if x.get("k") == "Array"]
+                    if not arrs and strip(node).get("k") == "Local":
+                        arrs = [x for x in walk(hctx.binds[strip(node)["v"]].init) if x.get("k") == "Array"]
+                    if len(arrs) == 1 and isinstance(arrs[0].get("es"), list):
+                        return num(len(arrs[0]["es"]))
+                return None
+            lens = [_len_of(o_) for o_ in outs]
+            if lens and all(l_ is not None and l_ == lens[0] for l_ in lens):
+                hl = lens[0]
         guard = [f for f in fs if f[0] == "cmp" and f[1] == "==" and {f[2], f[3]} == {DEG, hl}] if hl is not None else []
         ok = hl is not None and bool(guard)
         n_ok += ok
@@ -169,8 +191,16 @@ def run(rep, pdb, tier):
         copies = [e for e in e3 if e.value[0] == "idx" and e.value[1] == e.target]      # roots[1] = roots[0]
         okc = len(copies) == 2
         det = "copy assignments=%d" % len(copies)
+        anchor = copies[0].node if okc else None
+        if not okc:
+            # the shortcut written as an early `return Vector::new(3, v)` (one value three times)
+            fills = [r_ for r_ in walk(cs["body"]) if r_.get("k") == "Ret" and r_.get("e") is not None and c3.term(r_["e"])[0] == "call" and
+                     str(c3.term(r_["e"])[1]).endswith("Vector<T>::new") and c3.term(r_["e"])[2] == num(3)]
+            if len(fills) == 1:
+                okc, anchor = True, fills[0]
+                det = "early return of new(3, v)"
         if okc:
-            fs = facts(c3, copies[0].node)
+            fs = facts(c3, anchor)
             zs = [f for f in fs if f[0] == "cmp" and f[1] == "==" and (is_zero_term(f[2]) or is_zero_term(f[3]))]
             tested = set()
             for f in zs:
@@ -178,7 +208,7 @@ def run(rep, pdb, tier):
             # d0 = b^2 - 3ac, d1 = 2b^3 - 9abc + 27a^2 d: two distinct tested quantities, both also used in the general branch
             okc = len(tested) == 2
             det = "shortcut guarded by %d zero tests" % len(tested)
-        rep.add("cardano-branch", rule, okc, copies[0].node if copies else cs["body"], det)
+        rep.add("cardano-branch", rule, okc, anchor if anchor is not None else cs["body"], det)
     # ---- snap to the real axis: the component that is dropped is the one that was tested small
     snaps = [e for e in effs if e.kind == "assign" and e.loops and e.value[0] == "call" and str(e.value[1]).endswith("Complex<T>::new") and e.value[2] == ("field", e.target, "real") and e.value[3] == num(0)]
     rule = "a computed root is snapped to the real axis (imaginary part dropped) only under |imag| <= c*|real| with the dropped component on the small side"
